@@ -256,7 +256,7 @@ Definition b_module (its : list item) : res (list decl) :=
 
 (* Module.parseString as a function of the grammar term.  The fuel only bounds the recursion depth of the interpreter
    (Parse/RoundTripModule.v shows that this much is enough for every file of the round-trip fragment). *)
-Definition text_fuel (text : string) : nat := 16 * String.length text + 100.
+Definition text_fuel (text : string) : nat := Nat.tail_add (40 * String.length text) 100.   (* = 40 * length + 100; the tail-recursive sum keeps the extracted Peano arithmetic off the stack *)
 Definition parse_module (g : grammar) (text : string) : res (list decl) :=
   match parse_text g (text_fuel text) text with
   | Match [(_, VNode _ its)] _ => b_module its
